@@ -131,6 +131,7 @@ def _run(prop_id, prop, tier, seed, cfg, repo, root, scratch, t0, a):
     violations = []
     soft_hits = {}
     hashseeds = []
+    digest_set = set()
     for s, rep, rc, out in sorted(results, key=lambda r: r[0]["tag"]):
         if rep is None:
             harness.append(f"world {s['tag']} (hashseed {s['hashseed']}) exit={rc}: {out[-1500:]}")
@@ -142,6 +143,7 @@ def _run(prop_id, prop, tier, seed, cfg, repo, root, scratch, t0, a):
             for k, v in src.items():
                 dst[k] = dst.get(k, 0) + v
         orders.update((o[0], tuple(o[1])) for o in rep["orders"])
+        digest_set.update(d[1] for d in rep.get("digests", []))
         fps.update(rep["fingerprints"])
         if len(samples) < 3:
             samples.extend(rep["samples"][:1])
@@ -225,6 +227,9 @@ def _run(prop_id, prop, tier, seed, cfg, repo, root, scratch, t0, a):
             "samples": samples or [{"note": "no successful sample recorded"}],
             "worlds": len(hashseeds), "hash_seeds": hashseeds[:32],
             "runs_per_hour": int(n_runs / max(wall, 1e-6) * 3600),
+            "seeds_per_hour": int(n_runs / max(wall, 1e-6) * 3600),
+            "distinct_executions": {"measure": "distinct SHA-1 digests of the per-run event log (operations, outcomes, "
+                                               "order-preserving state dumps, peer interactions)", "count": len(digest_set)},
             "simulated_time": {"unit": getattr(prop, "TIME_UNIT", "API calls / oracle steps"), "steps": steps},
             "skipped_out_of_bounds": n_skip,
             "stats": stats, "probes": probes, "probes_at_zero": zero_probes,
